@@ -4,6 +4,8 @@ from . import grounded, accept, cli, provenance, progress
 
 def run(ctx):
     accept.rule_stable_unsat(ctx, 'skeptical')
+    from . import splits
+    splits.rule_split_contents(ctx)
     cli.rule_dispatch(ctx, 'skeptical')
     accept.rule_membership_answers(ctx, 'skeptical')
     accept.rule_list_quantifiers(ctx, 'skeptical')
